@@ -468,6 +468,70 @@ def run(chk) -> None:
         )
     chk.require(pruned, "R25e", f, "ignored sub-directories are not pruned from the walk (subdirs list of os.walk)", detail="prune present")
 
+    # ---- R25j: what the walk prunes, and which path it tests ----------------
+    chk.rule("R25j", "the walk drops a sub-directory only through the ignore test (no other filter on os.walk's subdirs list), and every path handed to _check_ignore_specs inside the walk is built from the directory currently being walked and the entry being considered")
+    tnames = [x for x in ast.walk(walk_for.target) if isinstance(x, ast.Name)]
+    dirvar = tnames[0].id if tnames else None
+    subvar = tnames[1].id if len(tnames) > 1 else None
+    prune_calls = {id(c) for c, _, _ in prune_sites}
+    n_mut = 0
+    for n in walk_local(walk_for):
+        tgt = None
+        if isinstance(n, ast.Call) and isinstance(n.func, ast.Attribute) and isinstance(n.func.value, ast.Name) and n.func.value.id == subvar and n.func.attr in ("remove", "pop", "clear", "__delitem__"):
+            if id(n) in prune_calls:
+                continue
+            tgt = n
+        elif isinstance(n, (ast.Assign, ast.AugAssign, ast.Delete)):
+            tg = n.targets if isinstance(n, (ast.Assign, ast.Delete)) else [n.target]
+            for t in tg:
+                if isinstance(t, ast.Subscript) and isinstance(t.value, ast.Name) and t.value.id == subvar:
+                    tgt = n
+                if isinstance(t, ast.Name) and t.id == subvar and isinstance(n, ast.AugAssign):
+                    tgt = n
+        if tgt is not None:
+            n_mut += 1
+            chk.fail(
+                "R25j", tgt,
+                f"the sub-directory list os.walk recurses on is narrowed by `{short(tgt, 70)}`, not by an ignore test: directories no ignore file mentions are silently left out of "
+                "`lint <dir>` (while naming them directly still lints them), and ignore files inside them are never read",
+                detail="_iter_files_in_path: subdirs narrowed outside the ignore test",
+            )
+    chk.count("R25j.other_subdir_filters", n_mut)
+    tested = 0
+    for c in calls_in(walk_for):
+        if call_name(c) != "_check_ignore_specs":
+            continue
+        a0 = _ignore_call_args(c, checker)[0]
+        if a0 is None:
+            continue
+        loop = _enclosing_for(c, walk_for)
+        if loop is None or loop is walk_for:
+            continue
+        st = cfg.stmt_of(c)
+        lv = {x.id for x in ast.walk(loop.target) if isinstance(x, ast.Name)}
+        names = set()
+
+        def _collect(e, at, depth=0):
+            for x in ast.walk(e):
+                if isinstance(x, ast.Name) and isinstance(x.ctx, ast.Load):
+                    os_ = origins(cfg, x, at)
+                    if depth < 4 and os_ and all(o.kind == "expr" and isinstance(o.expr, ast.AST) for o in os_):
+                        for o in os_:
+                            _collect(o.expr, o.stmt if o.stmt is not None else at, depth + 1)
+                    else:
+                        names.add(x.id)
+
+        _collect(a0, st)
+        tested += 1
+        chk.require(
+            dirvar in names and bool(lv & names), "R25j", c,
+            f"the path tested against the ignore specs is built from {sorted(names) or 'nothing'}, not from the directory being walked (`{dirvar}`) and the entry considered ({sorted(lv)}): "
+            "below the first level the test then speaks about a different path than the one walked (a same-named directory elsewhere is pruned or kept in its place)",
+            detail=f"_iter_files_in_path: ignore test on the walked entry ({'/'.join(sorted(lv))})",
+        )
+    chk.count("R25j.ignore_tests_in_walk", tested)
+    chk.floor("R25j.ignore_tests_in_walk", 3)
+
 
 def _sep_terminated(arg) -> bool:
     """``<path> + os.sep`` / ``<path> + "/"`` / ``os.path.join(<path>, "")``."""
@@ -601,6 +665,24 @@ def _r25d(chk, repo) -> None:
 from ..selftest import Variant  # noqa: E402
 
 VARIANTS = [
+    Variant(
+        "prune-test-built-on-the-walk-root", DISC,
+        '            absolute_path = os.path.abspath(os.path.join(dirname, subdir, "*"))\n',
+        '            absolute_path = os.path.abspath(os.path.join(path, subdir, "*"))\n',
+        "R25j", "_iter_files_in_path", "seeded C25-7: below the first level another directory is tested",
+    ),
+    Variant(
+        "hidden-directories-dropped-from-the-walk", DISC,
+        "        # Then look for any relevant sql files in the path.\n",
+        "        subdirs[:] = [subdir for subdir in subdirs if not subdir.startswith(\".\")]\n        # Then look for any relevant sql files in the path.\n",
+        "R25j", "_iter_files_in_path", "seeded C25-8",
+    ),
+    Variant(
+        "quiet-prune-path-joined-in-a-local", DISC,
+        '            absolute_path = os.path.abspath(os.path.join(dirname, subdir, "*"))\n',
+        '            joined = os.path.join(dirname, subdir, "*")\n            absolute_path = os.path.abspath(joined)\n',
+        "QUIET", None, "same path through a local",
+    ),
     Variant(
         "lint-path-crosses-two-switches", "src/sqlfluff/core/linter/linter.py",
         "            (path,), fix, ignore_non_existent_files, ignore_files, processes\n",
